@@ -2,6 +2,12 @@
 DEFERRED = "rules for this property are not armed yet (build order: DESIGN.md Appendix D); not claimed until a self-tested rule exists"
 
 CLAIMS = {
+    "C06": {
+        "level": "other",
+        "text": "Cell framing, NULL marker and text grammar of the text protocol encoders: every to_mysql_text path emits exactly one lenenc string through the library writer, or FB (only on the None path), or one delegation; text-mode write_col encodes once into the connection and end_row ends one packet; the compiled format_args! template of each encoder is decoded and compared, with the origin of each argument, to the MySQL literal grammar (`{}` of the value for integers/floats; %04-%02-%02 [%02:%02:%02[.%06]] of the named chrono accessors with the fraction exactly when non-zero; TIME %02:%02:%02[.%06] of secs/3600, secs%3600/60, secs%60, subsec_micros). What Display prints for numbers and how a client parses text back is NOT decided (std / client behaviour).",
+        "note": "Trusted: write_lenenc_str; core::fmt Display for integers and floats; the template encoding of this toolchain's core::fmt (a different encoding fails closed).",
+        "technique": "emission-sequence analysis + decoding of compiled format templates with def-use of their arguments",
+    },
     "C07": {
         "level": "other",
         "text": "Binary row layout rules: bitmap length (n+9)/8 and NULL bit (c+2)/8, (c+2)%8 as affine normal forms (offset 2 in all three places, for every column count); row header 00 once at column 0 followed by a zero-filled bitmap of bitmap_len bytes, relying on the buffer being empty (constructor + clear() in end_row, which writes the buffer whole before exactly one packet end); NULL for NOT NULL refused, NULL never encoded, non-NULL never sets a bit; per (impl, column-type arm) emission layouts for f32/f64/byte strings/DATE/DATETIME/TIME vs the protocol, with length-byte self-consistency, slot sources by accessor name, TIME div/mod formulas, zero-length TIME only when seconds and micros are zero, 7-byte DATETIME exactly when the fraction is zero, other column types refused.",
